@@ -446,6 +446,9 @@ def check_child(run, rng, name, h0, child, want, kw, w, rp, corpus, light=False)
     # truncation policy
     if want.get("truncate_error") is not None and "truncate_error" in h0.setting_kwds and not light:
         long_pw = "x" * (h0.truncate_size + 3)
+        if name != "lmhash" and rng.random() < 0.5:
+            # within the limit in characters, beyond it in bytes
+            long_pw = "é" * (h0.truncate_size // 2 + 1) + "x" * (h0.truncate_size // 2 - 1)
         try:
             child.hash(long_pw, **ck)
             raised = False
